@@ -12,7 +12,9 @@ with random COMMON lists (explicit / DEFtype-resolved names, arrays, undefined n
 Observation: what the continuing program prints (integer values and string lengths of every variable,
 then the NEXT / WEND / RETURN that closes the construct it was in), and afterwards public-API reads of
 every variable and array plus small direct-mode probe statements (DIM of each array, FN call, an
-assignment through an implicit name, DIM for the base, RETURN, ERROR 77, RND).
+assignment through an implicit name, DIM for the base, RETURN, ERROR 77, RND); for a share of the
+RUN/CLEAR/NEW cases instead a history of OPTION BASE / DIM / ERASE / element accesses, which must give,
+statement by statement, the output it gives in a fresh session.
 Expected: after RUN/CLEAR/NEW everything is as in a fresh session; after CHAIN exactly the COMMON
 variables (all with ALL) keep identical values and everything else is cleared.
 """
@@ -45,7 +47,8 @@ META = {
         'action_new_direct', 'action_chain', 'action_chain_all', 'action_chain_merge', 'action_chain_merge_all',
         'common_scalars_preserved', 'common_arrays_preserved', 'common_strings_preserved', 'non_common_cleared',
         'long_strings_in_state', 'memory_limited_states', 'closing_next_raised_error', 'closing_wend_raised_error',
-        'def_fn_probed', 'deftype_probed', 'option_base_probed', 'trap_probed', 'rnd_probed', 'directed_cases']},
+        'def_fn_probed', 'deftype_probed', 'option_base_probed', 'trap_probed', 'rnd_probed', 'directed_cases',
+        'base_dim_erase_histories_replayed', 'history_with_subscript_error', 'history_with_duplicate_definition']},
     'timeout': {'quick': 600, 'thorough': 7200},
 }
 
@@ -125,6 +128,37 @@ def _default(sigil):
 
 class Case(object):
     pass
+
+
+# OPTION BASE / DIM / ERASE histories: run after the reset and, identically, in a fresh session
+FIXED_SCRIPTS = [
+    ['OPTION BASE 1', 'DIM B(5):B(1)=7:ERASE B', 'DIM C(3)', 'C(0)=1', 'OPTION BASE 0', 'PRINT C(1)'],
+    ['DIM B(5)', 'ERASE B', 'OPTION BASE 1', 'DIM C(2)', 'C(0)=1', 'PRINT C(1);C(2)'],
+    ['B(3)=4', 'OPTION BASE 1', 'ERASE B', 'OPTION BASE 1', 'DIM B(3)', 'B(0)=1'],
+    ['OPTION BASE 0', 'DIM B(2)', 'ERASE B', 'OPTION BASE 1', 'OPTION BASE 0', 'B(0)=3:PRINT B(0)'],
+    ['OPTION BASE 1', 'OPTION BASE 1', 'OPTION BASE 0', 'DIM B%(2,2)', 'B%(0,1)=1', 'ERASE B%', 'B%(0,0)=2'],
+    ['DIM B$(3)', 'B$(0)="x"', 'ERASE B$', 'ERASE B$', 'OPTION BASE 1', 'B$(0)="y"', 'PRINT B$(1)'],
+]
+
+
+def gen_script(rng):
+    names = ['B', 'C%', 'D$']
+    out = []
+    for _ in range(rng.randint(5, 10)):
+        k = rng.random()
+        a = rng.choice(names)
+        lit = {'B': '7', 'C%': '3', 'D$': '"x"'}[a]
+        if k < 0.25:
+            out.append('OPTION BASE %d' % rng.choice([0, 1, 1]))
+        elif k < 0.45:
+            out.append(rng.choice(['DIM %s(%d)' % (a, rng.randint(1, 5)), 'DIM %s(2,%d)' % (a, rng.randint(1, 3))]))
+        elif k < 0.65:
+            out.append('ERASE ' + rng.choice([a, a, ','.join(rng.sample(names, 2)), ','.join(names)]))
+        elif k < 0.85:
+            out.append(rng.choice(['%s(0)=%s' % (a, lit), '%s(1)=%s' % (a, lit), '%s(0,1)=%s' % (a, lit), '%s(11)=%s' % (a, lit)]))
+        else:
+            out.append(rng.choice(['PRINT %s(0)' % a, 'PRINT %s(1)' % a, 'PRINT %s(2,1)' % a]))
+    return out
 
 
 def gen_case(rng):
@@ -449,6 +483,10 @@ def gen_case(rng):
     c.long_strings = sum(1 for v in scalars.values() if isinstance(v, bytes) and len(v) > 100) + \
         sum(1 for a in arrays.values() for v, _ in a[1].values() if isinstance(v, bytes) and len(v) > 100)
     c.chain, c.all_, c.merge = chain, all_, merge
+    # a share of the RUN/CLEAR/NEW cases replays an OPTION BASE / DIM / ERASE history instead of the standard probes
+    c.script = None
+    if not chain and c.mem is None and rng.random() < 0.4:
+        c.script = gen_script(rng) if rng.random() < 0.8 else list(rng.choice(FIXED_SCRIPTS))
     return c
 
 
@@ -467,7 +505,7 @@ def _nested(dims, cells, lo, sigil):
 
 def _jsonable_case(c):
     return {'action': c.action, 'p1': c.p1, 'p2name': c.p2name, 'p2': c.p2, 'direct_action': c.direct_action,
-            'context': c.ctx, 'common_scalars_expected': sorted(c.keep_s), 'common_arrays_expected': sorted(c.keep_a)}
+            'script': getattr(c, 'script', None), 'context': c.ctx, 'common_scalars_expected': sorted(c.keep_s), 'common_arrays_expected': sorted(c.keep_a)}
 
 
 def run_case(c, res, harness, rnd_ref):
@@ -532,7 +570,10 @@ def run_case(c, res, harness, rnd_ref):
             if c.long_strings:
                 res.count('long_strings_in_state', c.long_strings)
             _check_program_output(c, out, viol, res)
-            _check_api(c, box, viol, res, harness, rnd_ref)
+            if getattr(c, 'script', None):
+                _check_script(c, box, viol, res, harness)
+            else:
+                _check_api(c, box, viol, res, harness, rnd_ref)
     except harness.Internal as e:
         res.case(key)
         res.violation(e.key, str(e), case)
@@ -575,6 +616,25 @@ def _check_program_output(c, out, viol, res):
     if tail != etail:
         what = {'next': 'for-stack-survives', 'wend': 'while-stack-survives', 'return': 'gosub-stack-survives', None: 'program-end-differs'}[c.closer]
         viol(what, 'after the reset the closing %s printed %r, expected %r' % ((c.closer or 'END').upper(), tail[:120], etail[:120]))
+
+
+def _check_script(c, box, viol, res, harness):
+    """After RUN / CLEAR / NEW a history of OPTION BASE, DIM, ERASE and element accesses behaves as in a fresh session."""
+    case_script = [t.encode('ascii') for t in c.script]
+    got = [box.ex(t) for t in case_script]
+    with harness.Box(budget=500) as fresh:
+        want = [fresh.ex(t) for t in case_script]
+    res.count('base_dim_erase_histories_replayed')
+    res.count('base_dim_erase_statements', len(case_script))
+    if any(w.endswith(b'Subscript out of range' + E) for w in want):
+        res.count('history_with_subscript_error')
+    if any(w.endswith(b'Duplicate Definition' + E) for w in want):
+        res.count('history_with_duplicate_definition')
+    for t, g, w in zip(c.script, got, want):
+        if g != w:
+            viol('option-base-dim-erase-history-differs-from-fresh-session',
+                 'history %r: %r gives %r after the reset, %r in a fresh session' % (c.script, t, g, w))
+            break
 
 
 def _check_api(c, box, viol, res, harness, rnd_ref):
@@ -696,7 +756,29 @@ def _hand(action, p1, ctx=(), p2=None, p2name=None, direct=None, expected_out=b'
     c.chain = action.startswith('chain')
     c.all_ = action in ('chain_all', 'chain_merge_all')
     c.merge = action.startswith('chain_merge')
+    c.script = None
     return c
+
+
+def script_cases():
+    """Arrays dimensioned with / without OPTION BASE, then each reset statement, then each fixed history."""
+    out = []
+    states = [['10 DIM A(3):A(1)=2:Z(4)=1'], ['10 OPTION BASE 1:DIM A(3):A(1)=2'], ['10 A(2)=5:ERASE A:DIM Y%(2,2)']]
+    for st in states:
+        forms = [
+            ('clear', st + ['20 CLEAR', '30 END'], None),
+            ('clear_direct', st + ['20 END'], b'CLEAR'),
+            ('run_line', st + ['20 RUN 40', '40 END'], None),
+            ('run_direct', st + ['20 END', '40 END'], b'RUN 40'),
+            ('new', st + ['20 NEW'], None),
+            ('new_direct', st + ['20 END'], b'NEW'),
+        ]
+        for action, p1, direct in forms:
+            for script in FIXED_SCRIPTS:
+                c = _hand(action, p1, direct=direct)
+                c.script = list(script)
+                out.append(c)
+    return out
 
 
 def directed_cases():
@@ -751,6 +833,9 @@ def run_shard(spec, res):
     rnd_ref = _fresh_rnd(harness)
     if spec['kind'] == 'directed':
         for c in directed_cases():
+            res.count('directed_cases')
+            run_case(c, res, harness, rnd_ref)
+        for c in script_cases():
             res.count('directed_cases')
             run_case(c, res, harness, rnd_ref)
         for i in range(60):
